@@ -272,6 +272,28 @@ def degenerate(x):
     return x["kind"] == "seq" and not x["rtrees"] and x["nadd"] == 0
 
 
+def tree_any(tree, pred):
+    k = tree[0]
+    if pred(tree):
+        return True
+    if k == "s":
+        return any(tree_any(m, pred) for m in tree[2])
+    if k == "c":
+        return any(tree_any(m, pred) for m in tree[1])
+    if k in ("q", "t"):
+        return tree_any(tree[3], pred)
+    if k in ("x", "?"):
+        return tree_any(tree[-1], pred)
+    return False
+
+
+def has_semi(c, lb_only=False):
+    """a semi-constrained INTEGER among the components (known findings C02-uper-semiconstrained / C01-uper-semiconstrained-lb
+    of the base layer: two's-complement contents instead of the offset; a lower bound other than 0 cannot be encoded)"""
+    p = (lambda t: t[0] == "i" and t[2] is not None and t[3] is None and (not lb_only or t[2] != 0))
+    return any(tree_any(t, p) for t in c["x"]["rtrees"] + c["x"]["atrees"])
+
+
 def has_setof(c):
     """a SET OF somewhere: the order of the elements is not part of the value (DER and UPER sort them, each by its own
     encodings; OER writes them as stored), so octets and model value strings are compared through DER only"""
@@ -397,6 +419,8 @@ def run_c02(run, rng, tier):
                         run.known_finding(FID["nn63_c02"], line[:200])
                     elif c["x"].get("std_ety") and s in ("uper", "oer"):
                         run.known_finding(FID["vb_c02"], line[:200])
+                    elif s == "uper" and has_semi(c):
+                        run.known_finding("C02-uper-semiconstrained", line[:200])
                     else:
                         run.violation("ext:oracle:%s" % s, dict(rp, what="bytes differ from the standard encoding"))
         if cs:
@@ -418,6 +442,9 @@ def classify_rt(run, c, line, out):
         f = st.split(":")
         if syn == "xer" and len(f) == 3 and f[0] == "DEC" and f[1] == "OK" and "/" in f[2] and int(f[2].split("/")[0]) + 1 == int(f[2].split("/")[1]):
             run.known_finding(FID["xernl"], line[:200])
+            continue
+        if syn == "cper" and st.startswith("ENCFAIL") and has_semi(c, lb_only=True):
+            run.known_finding("C01-uper-semiconstrained-lb", line[:200])
             continue
         if syn == "cper" and st.startswith("DEC:") and over64(c):
             run.known_finding(FID["ns64_c01"], line[:200])
